@@ -1512,7 +1512,7 @@ def host_rules(ctx, prefix):
     allowed = {"normal_output": {"from_css", "current_output_mut", "output", "output_and_low_priority_output"},
                "low_priority_output": {"from_css", "current_output_mut", "write_in_low_priority", "output_and_low_priority_output"},
                "using_low_priority": {"from_css", "write_in_low_priority"},
-               "cur_at_rule_stacks": {"from_css", "wrap_at_rule_output", "write_in_low_priority"}}
+               "cur_at_rule_stacks": {"from_css", "wrap_at_rule_output"}}
     for fld, ws in owners.items():
         foreign = ws - allowed[fld]
         obs.append(ob("%s.only/%s" % (prefix, fld), not foreign, "lib.rs", "StyleSheetTransformer.%s is mutated only by %s" % (fld, sorted(ws)) + ("" if not foreign else " - foreign: %s" % sorted(foreign))))
@@ -1644,6 +1644,24 @@ def host_rules(ctx, prefix):
                 obs.append(ob("%s.only/host-selector/parts" % prefix, False if wrong else None if und else True, ctx.where(g),
                               "; ".join(sorted(set(wrong))) if wrong else "`[wx-host=..]` always, `,[is=..]` exactly when a host name is configured" if not und else "the selector emission was not followed: not decided",
                               witness=None if not wrong else "host_is = \"\" : `:host{}` becomes `[wx-host=\"p\"]{}` without `,[is=\"\"]`"))
+            # .. and where they point: the tokens synthesised for the selector carry the position of the token that stands for the
+            # rule in the source (`wrap_at(&next)` / `next.position`), not a cursor position sampled while the rule is being replayed
+            if len(clos) == 1:
+                cursor_pos = []
+                n_w = 0
+                for x in sir.walk(clos[0]["body"], into_closures=True):
+                    if x.get("k") == "call" and (sir.call_path(x) or "").split("::")[-1] in ("wrap", "wrap_at") and "StepToken" in (sir.call_path(x) or "") and len(x["args"]) == 2:
+                        n_w += 1
+                        a2 = sir.strip_ref(x["args"][1])
+                        if a2.get("k") == "path" and len(a2["segs"]) == 1:
+                            inits = [l_["init"] for l_ in sir.walk(clos[0]["body"], into_closures=True) if l_.get("k") == "local" and l_["pat"].get("name") == a2["segs"][0] and l_.get("init") is not None]
+                            a2 = sir.strip_ref(inits[-1]) if inits else a2
+                        t2 = sir.expr_str(a2).replace(" ", "")
+                        if re.search(r"\.position\(\)$", t2) or re.search(r"Default::default\(\)|Position::default\(\)", t2):
+                            cursor_pos.append(t2[:40])
+                obs.append(ob("%s.only/host-selector/position" % prefix, (not cursor_pos) if n_w else None, ctx.where(g),
+                              "%d synthesised tokens, each placed at a source token" % n_w if not cursor_pos else "synthesised tokens are placed at `%s`" % cursor_pos[0],
+                              witness=None if not cursor_pos else "the low-priority source map points the `[wx-host=..]` tokens into the rule body"))
             obs.append(ob("%s.only/host-selector" % prefix, bool(ok3), ctx.where(g), "low-priority selector is built from `wx-host` (class prefix) and `is` (host_is): %s" % [l for l in lits if l in ("wx-host", "is")]))
             # declarations of the :host rule are transformed by the value routine
             ok4 = any(x.get("k") == "call" and sir.call_name(x) == value_routine(ctx) for x in sir.walk(blk))
@@ -1753,6 +1771,29 @@ def source_token_rules(ctx, prefix):
     ob = ctx.ob
     sc = ctx.sc
     obs = []
+    # wave 10 (a) every token that is appended is mapped: the registration in `append_token` stands under no condition
+    import guards as gdm3
+    at_ = [f for f in sc.fns if f.name == "append_token" and f.base == "StyleSheetOutput" and f.body]
+    if at_:
+        Gm = gdm3.guards_of(at_[0].body)
+        adds = [n for n in sir.walk(at_[0].body) if n.get("k") == "mcall" and n["m"] in ("add_raw", "add") and "source_map" in sir.expr_str(n["recv"])]
+        conds = [sir.expr_str(sj)[:50] if kd == "cond" else sir.expr_str(sj[0])[:50] for n in adds for kd, sj, pl in Gm.get(id(n), [])]
+        obs.append(ob("%s.map/unconditional" % prefix, bool(adds) and not conds, ctx.where(at_[0]), "every appended token is registered in the map" if adds and not conds else "the registration depends on %s" % conds[:2],
+                      witness=None if adds and not conds else "a sheet that starts with a token at 0:0 (no leading blank): its first token has no mapping"))
+    # wave 10 (b) a synthesised token is placed at a token of the source: no token is built at the default position (0:0 is the
+    #     position of the sheet's first character)
+    dflt = []
+    n_wraps = 0
+    for g in sc.fns:
+        if not g.body or g.base == "StepToken":
+            continue
+        for x in sir.walk(g.body, into_closures=True):
+            if x.get("k") == "call" and (sir.call_path(x) or "").endswith("StepToken::wrap") and len(x["args"]) == 2:
+                n_wraps += 1
+                if re.search(r"default\(\)", sir.expr_str(x["args"][1])):
+                    dflt.append("%s builds a token at `%s`" % (g.name, sir.expr_str(x["args"][1])[:30]))
+    obs.append(ob("%s.src/no-default-position" % prefix, False if dflt else True if n_wraps >= 10 else None, "lib.rs", "; ".join(sorted(set(dflt))[:2]) if dflt else "%d synthesised tokens, none at the default position" % n_wraps,
+                  witness=None if not dflt else "the braces of a replayed `@media` wrapper are mapped to 0:0, the `@` of the first rule"))
     # wave 9 (a) of the tokens written for a class name only the rewritten identifier carries the original spelling as its name
     wf = [f for f in sc.fns if f.name == "write_maybe_class_name" and f.body]
     if len(wf) == 1:
